@@ -47,8 +47,8 @@ EXHAUSTIVE = {"quick": False, "thorough": False}
 SCOPE = {"quick": "6 x 701 datasets (n<=3, m<=2): all static APIs, all projections, all 240 non-empty mutator sequences of length "
                   "<= 2; 120 sampled datasets n<=5, m<=4 (same); generator grid n<=5, m<=3, steps {0,3,30}, 3 seeds; "
                   "240 datasets x 5 algorithms",
-         "thorough": "6 x 701 datasets: all 3615 non-empty mutator sequences of length <= 3; 2 x 17 550 datasets n<=3, m=3 with "
-                     "sequences <= 2; 1500 sampled datasets n<=6, m<=5 (sequences <= 2); generator grid n<=6, m<=4, 20 "
+         "thorough": "3 x 701 datasets (permuted ints, integer-like strings, mixed): all 3615 non-empty mutator sequences of "
+                     "length <= 3, the 3 other name kinds <= 2; 2 x 17 550 datasets n<=3, m=3 with sequences <= 2; 1500 sampled datasets n<=6, m<=5 (sequences <= 2); generator grid n<=6, m<=4, 20 "
                      "seeds; 1500 datasets x 5 algorithms"}
 CHUNK = 2
 TIMEOUT = 900
@@ -56,6 +56,7 @@ TIMEOUT = 900
 S_MUT = "Dataset re-analysis after mutation"
 RATES = [0.0, 0.34, 0.5, 0.67, 1.0]
 OPS = ["rm:%d" % m for m in range(7)] + ["rm:allbutlast", "rm:all"] + ["rate:%s" % r for r in RATES] + ["empties"]
+DEEP_KINDS = ("perm", "intstr", "mixed")
 ALGOS = ["Borda", "Copeland", "BioConsert", "KwikSortRandom", "PickAPerm"]
 
 
@@ -68,10 +69,11 @@ def gen_cases(tier, seed):
         names = D.NAME_KINDS[kind](3)
         for i in range(0, len(base), 12):
             yield {"kind": "static", "namekind": kind, "datasets": [D.rename(x, names) for x in base[i:i + 12]]}
-        step = 6 if quick else 1
+        depth = 3 if (not quick and kind in DEEP_KINDS) else 2
+        step = 6 if depth == 2 else 1
         for i in range(0, len(base), step):
             yield {"kind": "seq", "namekind": kind, "datasets": [D.rename(x, names) for x in base[i:i + step]],
-                   "depth": 2 if quick else 3}
+                   "depth": depth}
     if not quick:
         for kind in ("perm", "mixed"):
             names = D.NAME_KINDS[kind](3)
@@ -474,6 +476,9 @@ def expected_after(op, before):
     return out, False
 
 
+MUTATOR = {"rm": "remove_elements", "rate": "remove_elements_rate_presence_lower_than", "empties": "remove_empty_rankings"}
+
+
 def check_seq(case, rec):
     from bounded import adapt as A
     from corankco.dataset import Dataset, EmptyDatasetException
@@ -505,7 +510,7 @@ def check_seq(case, rec):
                         dead.add(seq[:i + 1])
                         if not must_refuse and i == k - 1:
                             rec.evals += 1
-                            rec.add("C16.prop", op.split(":")[0] + " raises",
+                            rec.add("C16.prop", MUTATOR[op.split(":")[0]] + " raises",
                                     dict(ctx, problem="EmptyDatasetException although elements remain", before=before))
                         break
                     except Exception as e:                  # noqa: BLE001
@@ -513,7 +518,7 @@ def check_seq(case, rec):
                         dead.add(seq[:i + 1])
                         if i == k - 1:
                             rec.evals += 1
-                            rec.add("C16.prop", op.split(":")[0] + " raises",
+                            rec.add("C16.prop", MUTATOR[op.split(":")[0]] + " raises",
                                     dict(ctx, exception=raise_text(e), before=before))
                         break
                 if not ok:
@@ -523,8 +528,7 @@ def check_seq(case, rec):
                 exp, exact = expected_after(seq[-1], before)
                 exp_conv = A.expected_names(exp)[0] if any(exp) else exp
                 got = d.rankings if exact else [r for r in d.rankings if len(r.buckets) > 0]
-                name = {"rm": "remove_elements", "rate": "remove_elements_rate_presence_lower_than",
-                        "empties": "remove_empty_rankings"}[seq[-1].split(":")[0]]
+                name = MUTATOR[seq[-1].split(":")[0]]
                 rec.content(got, exp_conv, name + " content", dict(ctx, before=before))
                 if exp != before:
                     rec.nk += 1
